@@ -434,6 +434,36 @@ def build_table(I):
             return acts
         return h
 
+    def map_or_like(okname):
+        def h(I, st, a, c):
+            v, dflt, f = a[0], a[1], a[2]
+            cond = enum_is(v, okname)
+            acts = []
+            if cond is not False:
+                acts.extend(with_cond(None if cond is True else cond, invoke(I, st, f, [v.pay[okname][0]], lambda st2, rv: ret(rv))))
+            if cond is not True:
+                acts.append((None if cond is False else bnot(cond), ("ret", dflt)))
+            return acts
+        return h
+
+    T["Result::map_or"] = map_or_like("Ok")
+    T["Option::map_or"] = map_or_like("Some")
+
+    def unwrap_or_like(okname):
+        def h(I, st, a, c):
+            v, dflt = a[0], a[1]
+            cond = enum_is(v, okname)
+            acts = []
+            if cond is not False:
+                acts.append((None if cond is True else cond, ("ret", v.pay[okname][0])))
+            if cond is not True:
+                acts.append((None if cond is False else bnot(cond), ("ret", dflt)))
+            return acts
+        return h
+
+    T["Result::unwrap_or"] = unwrap_or_like("Ok")
+    T["Option::unwrap_or"] = unwrap_or_like("Some")
+
     T["Result::map"] = map_like("Result", "Ok", "Err")
     T["Option::map"] = map_like("Option", "Some", "None")
 
@@ -755,27 +785,33 @@ def build_table(I):
         if rg.ty == "Range":
             cond = lo < hi
             newv = Struct("Range", (lo + 1, hi))
-        else:
-            done = rg.fields[2] if len(rg.fields) > 2 else False
-            if done is True:
+            if isinstance(cond, bool):
+                if cond:
+                    I.write(st, r.cell, r.path, newv)
+                    return some(lo)
                 return none()
-            cond = lo <= hi
-            # RangeInclusive: after yielding hi it is exhausted
-            last = (lo == hi)
-            if isinstance(last, bool) and isinstance(cond, bool):
-                if not cond:
-                    return none()
-                I.write(st, r.cell, r.path, Struct("RangeInclusive", (lo if last else lo + 1, hi, True if last else False)))
+            def upd(st2):
+                I.write(st2, r.cell, r.path, newv)
+            return [(cond, ("do", upd, some(lo))), (z3.Not(cond), ("ret", none()))]
+        # RangeInclusive { start, end, exhausted }
+        done = rg.fields[2] if len(rg.fields) > 2 else False
+        if done is True:
+            return none()
+        lt, eq = lo < hi, lo == hi
+        def upd_more(st2):
+            I.write(st2, r.cell, r.path, Struct("RangeInclusive", (lo + 1, hi, False)))
+        def upd_last(st2):
+            I.write(st2, r.cell, r.path, Struct("RangeInclusive", (lo, hi, True)))
+        if isinstance(lt, bool) and isinstance(eq, bool):
+            if lt:
+                upd_more(st)
                 return some(lo)
-            raise _i.Unsupported("symbolic RangeInclusive iteration state")
-        if isinstance(cond, bool):
-            if cond:
-                I.write(st, r.cell, r.path, newv)
+            if eq:
+                upd_last(st)
                 return some(lo)
             return none()
-        def upd(st2):
-            I.write(st2, r.cell, r.path, newv)
-        return [(cond, ("do", upd, some(lo))), (z3.Not(cond), ("ret", none()))]
+        lt, eq = to_z3(lt), to_z3(eq)
+        return [(lt, ("do", upd_more, some(lo))), (eq, ("do", upd_last, some(lo))), (z3.And(z3.Not(lt), z3.Not(eq)), ("ret", none()))]
 
     def iter_items(I, st, it):
         """Materialise remaining items of a (possibly mapped) iterator as (items, [closures inner->outer])."""
